@@ -68,7 +68,9 @@ def run(tier, seed, replay=None):
         "states": r.distinct + rq.distinct, "transitions": r.generated + rq.generated, "traces_validated_against_impl": 0,
         "token_sequences_enumerated": nseq, "token_sequences_replayed": res["counters"].get("sequences", 0),
         "evaluations": res["evaluations"], "distinct_nontrivial": res["distinct"],
-        "rule": "TLC enumerates every (command, connection kind, work-type class, token class) vector of ControlSession.tla part c15; " +
+        "rule": "TLC enumerates every (command, connection kind, work-type class, token class) vector of ControlSession.tla part c15, plus submit with "
+                "five other spellings of the registered type names (capitalisation, surrounding white space, look-alike letters) judged by the rule "
+                "'refused as unknown type or held to the token rule of the type it runs as'; " +
                 ("quick: a seeded stratified subset (every one of the 75 command x connection x work-type cells with two token classes rotating with "
                  "cell and seed - every token class occurs in 15 cells - plus valid and absent in the 20 protected cells) is " if quick else "every vector is ") +
                 "executed %d time(s) on the real daemon with freshly built tokens (valid: RS512/RS256/PS384 by the configured key; expired; other audience "
